@@ -237,6 +237,43 @@ class Module:
                 return m, m.defined[name]
         return None, None
 
+    # ---- structural facts: the order of a class's dataclass fields (= its positional constructor signature, base classes first),
+    # of a namedtuple's fields, and of a function's parameters; emitted as lists of strings (needs `From Coq Require Import String`)
+    def dataclass_fields(self, cls):
+        node = self.classes[cls]
+        is_dc = any(ast.unparse(d).split("(")[0].endswith("dataclass") for d in node.decorator_list)
+        if any(isinstance(n, ast.FunctionDef) and n.name == "__init__" for n in node.body):
+            raise Untranslatable(f"{cls} defines its own __init__: its constructor signature is not its dataclass fields")
+        fields = []
+        for b in node.bases:
+            bn = ast.unparse(b)
+            if bn in self.classes:
+                fields += self.dataclass_fields(bn)
+            elif bn != "object":
+                raise Untranslatable(f"{cls}: base class {bn} is not defined in this module")
+        if not is_dc:
+            if not fields:
+                raise Untranslatable(f"{cls} is neither a dataclass nor derived from one")
+            return fields           # a plain subclass inherits the generated __init__ of its dataclass base unchanged
+        for n in node.body:
+            if isinstance(n, ast.AnnAssign) and isinstance(n.target, ast.Name):
+                if n.target.id in fields:
+                    fields.remove(n.target.id)     # a re-declared field keeps... its ORIGINAL position in dataclasses; keep simple: fail
+                    raise Untranslatable(f"{cls}: field {n.target.id} re-declared")
+                fields.append(n.target.id)
+        return fields
+
+    def namedtuple_fields(self, name):
+        v = self.consts.get(name)
+        if not (isinstance(v, ast.Call) and ast.unparse(v.func).endswith("namedtuple") and len(v.args) == 2 and isinstance(v.args[1], ast.Constant) and isinstance(v.args[1].value, str)):
+            raise Untranslatable(f"{name} is not `namedtuple(name, 'field field ...')` any more")
+        return v.args[1].value.replace(",", " ").split()
+
+    def emit_names(self, coq_name, names, comment):
+        if not hasattr(self, "sig_out"):
+            self.sig_out = []
+        self.sig_out.append(f"(* {comment} *)\nDefinition {coq_name} : list string := [" + "; ".join('"%s"' % n for n in names) + "]%string.")
+
     def method(self, cls, name):
         for n in self.classes[cls].body:
             if isinstance(n, ast.FunctionDef) and n.name == name:
@@ -255,10 +292,14 @@ class Module:
             hdr.append("From BBLib Require Import NumpyDtype.")
         if getattr(self, "uses_interp", False):
             hdr.append("From BBLib Require NumSig Interp.")
+        if getattr(self, "sig_out", None):
+            hdr.insert(4, "From Coq Require String.")      # imported only inside the module below: String.length would shadow List.length
         for m in self.imports:
             hdr.append(f"From BBRun Require {m.coq_name}.")
         hdr += ["Import ListNotations.", "Open Scope R_scope.", ""]
         body = []
+        if getattr(self, "sig_out", None):
+            body += ["Module Signatures.", "Import String.", "Open Scope string_scope."] + self.sig_out + ["End Signatures.", "Export Signatures.", ""]
         if getattr(self, "uses_linspace", False):
             # numpy.linspace(a, b, n): a + k * ((b - a) / (n - 1)) for k = 0 .. n-1 (over the reals the overwritten last entry is b too)
             body += ["Definition linspace (a b : R) (n : nat) : list R := map (fun k => a + INR k * ((b - a) / (INR n - 1))) (seq 0 n).", ""]
